@@ -1375,7 +1375,7 @@ class FnTranslator:
         return vs
 
     def if_stmt(self, e, code):
-        vs = self.outer_vars(self.assigned(e), e)
+        vs = self.outer_vars(sel_canon(self, self.assigned(e)), e)
         c, ct = self.expr(e.cond, code, TBool())
         if not isinstance(ct, TBool):
             self.err("condition of type %r" % (ct,), e.cond)
@@ -1589,7 +1589,7 @@ class FnTranslator:
             assigned = [a for a in assigned if a != seq_var.rust]
             if seq_var.rust in self.reads(s.body):
                 self.err("the body of an `iter_mut()` loop reads the sequence itself", s)
-        state = self.outer_vars(assigned, s)
+        state = self.outer_vars(sel_canon(self, assigned), s)
         state_names = [v.rust for v in state]
         caps = self.captured(s.body, state_names, loop_names)
         if it_mut and seq_var in caps:
@@ -2841,7 +2841,7 @@ def sel_for(tr, s, code):
     else:
         lst = "List.range' %s (%s - %s)" % (atom(lo), atom(hi), atom(lo))
     assigned = tr.assigned(N("for", s.pos, pat=s.pat, iter=s.iter, body=s.body))
-    state = tr.outer_vars(assigned, s)
+    state = tr.outer_vars(sel_canon(tr, assigned), s)
     state_names = [v.rust for v in state]
     caps = tr.captured(s.body, state_names, [s.pat.name])
     saved_scopes, saved_tail = tr.scopes, tr.tail_expected
@@ -2890,6 +2890,19 @@ def sel_for(tr, s, code):
     out_pat = "(" + ", ".join([r] + ([v.lean for v in state] if state else ["_"])) + ")"
     code.bind(out_pat, ("call", "%s%s%s %s %s" % (name, tr.abs_args(), "".join(" " + v.lean for v in caps), atom(lst), st_val)))
     return r
+
+
+def sel_canon(tr, names):
+    """spec `canonical_state=True`: the variables a loop / `if` carries are ordered by *declaration* (fields and parameters
+    in spec order, then locals in order of their `let`), not by first assignment — so that swapping two statements or the
+    branches of an `if` does not permute the state tuple the equality theorems are stated for"""
+    if not (tr.spec.get("canonical_state") or tr.unit.get("canonical_state")):
+        return names
+    order = {}
+    for sc in tr.scopes:
+        for k in sc:
+            order.setdefault(k, len(order))
+    return sorted(names, key=lambda n: (order.get(n.lstrip("*"), len(order)), n))
 
 
 def sel_closure_calls(tr):
@@ -3411,7 +3424,7 @@ unit(name="SrcRankSelect", props="property C17", file="src/data_structures/rank_
                      header="fn select_x<F: Fn(u8) -> bool, C: Fn(u8) -> u32>(&self, j: u64, "
                             "superblocks: &[SuperblockRank], is_match: F, count_all: C,) -> Option<u64>",
                      self_fields=RANKSELECT_FIELDS, params=[("j", "u64"), ("superblocks", "&[SuperblockRank]")],
-                     ret="Option<u64>", locals={"bit": "u8", "max_bit": "u64"},
+                     ret="Option<u64>", locals={"bit": "u8", "max_bit": "u64"}, canonical_state=True,
                      abstract_fns=dict(RANKSELECT_BSEARCH, **{
                          "is_match": dict(lean="isMatch", args=["u8"], ret="bool"),
                          "count_all": dict(lean="countAll", args=["u8"], ret="u32")}),
@@ -3465,11 +3478,11 @@ unit(name="SrcWavelet", props="property C17", file="src/data_structures/wavelet_
                             "bits: &mut BitVec<u8>, prev_bits: u64,)",
                      params=[("DNA2INT", "[u8; 128]"), ("vals", "&[u8]"), ("shift", "u8"), ("next_zeros", "&mut Vec<u8>"),
                              ("next_ones", "&mut Vec<u8>"), ("bits", "&mut BitVec<u8>"), ("prev_bits", "u64")],
-                     ret=None, abstract_fns=WAVELET_SETBIT,
+                     ret=None, abstract_fns=WAVELET_SETBIT, canonical_state=True,
                      theorem="RbV.Thm.GenSrcWaveletNew.buildPartlevel_eq_model"),
                 dict(name="WaveletMatrix::new", lean="new", header="pub fn new(text: &[u8]) -> Self",
                      params=[("DNA2INT", "[u8; 128]"), ("text", "&[u8]")],
-                     ret="(usize, usize, Vec<u64>, Vec<RankSelect>)", shadow_ok=True,
+                     ret="(usize, usize, Vec<u64>, Vec<RankSelect>)", shadow_ok=True, canonical_state=True,
                      struct_fields={"WaveletMatrix": [f for f, _ in WAVELET_FIELDS]},
                      struct_field_types={"WaveletMatrix": dict(WAVELET_FIELDS)},
                      abstract_fns=WAVELET_NEW_ABS,
